@@ -11,6 +11,9 @@ import FeatModel.Lemmas.C10Keys
 import FeatModel.Lemmas.C10Lift2Dg
 import FeatModel.Lemmas.C10BoundaryPart
 import FeatModel.Lemmas.C10Facets3D
+import FeatModel.Lemmas.C10Lift3Dc
+import FeatModel.Lemmas.C10Lift3Dd
+import FeatModel.Lemmas.C10Lift1D
 import FeatModel.Lemmas.C10CoverData
 import FeatModel.Lemmas.C10CoverH3_00
 import FeatModel.Lemmas.C10CoverH3_01
@@ -48,9 +51,10 @@ regenerated from the FEAT sources on every run.  Helper lemmas are in `Lemmas/C1
 
 Full statement and what is proved:
 * `C10.FullStatement` (global lift of conformity for dim 1..3): PROVED for `dim = 2` (`C10.global_lift_2d`, any mesh
-  size, triangles and quadrilaterals, + histories); NOT proved for `dim = 3` (there: `C10.shape_preserved_partial`
-  for all meshes, the local lemmas over the Latin-square and the pairwise covering orientation families) and not
-  stated separately for `dim = 1`.
+  size, triangles and quadrilaterals, + histories) and for `dim = 1` (`C10.global_lift_1d`); for `dim = 3` the
+  statement needs the extra hypothesis `orientOk` (`C10.FullStatement3D`) and is proved only in part
+  (`C10.global_lift_3d_partial`: `shapeOk`, `facesOk`, `facetsOk`, `coveredOk` for every mesh; `distinctOk` and
+  `orientOk` only locally over the Latin-square and pairwise covering orientation families).
 * counts, Euler characteristic, boundary = one-cell facets (+ preservation in 2-D), mesh-part child mapping, local
   volume/orientation identities: see the sections below.
 -/
@@ -124,6 +128,11 @@ theorem C10.tables_structurally_wellformed (kind : Kind) :
 theorem C10.global_lift_2d (M : Mesh) (hd : M.dim = 2) (h : M.consistent = true) : (refine M).consistent = true :=
   consistent_refine2 M hd h
 
+/-- **GLOBAL LIFT, 1-D (complete)**: `C10.FullStatement` restricted to `dim = 1` (segment meshes of any size, both
+    shape families, any edge orientation) -/
+theorem C10.global_lift_1d (M : Mesh) (hd : M.dim = 1) (h : M.consistent = true) : (refine M).consistent = true :=
+  consistent_refine1 M hd h
+
 /-- histories: conformity is preserved by any number of refinement steps (2-D) -/
 theorem C10.global_lift_2d_histories (M : Mesh) (hd : M.dim = 2) (h : M.consistent = true) (n : Nat) :
     (Nat.iterate refine n M).consistent = true ∧ (Nat.iterate refine n M).dim = 2 := by
@@ -174,7 +183,48 @@ theorem C10.facet_adjacency_2d (M : Mesh) (hd : M.dim = 2) (hs : M.shapeOk = tru
     (2 * M.num 1 ≤ x → (refine M).facetCount x = 2) :=
   facetCount_refine2_cases M ⟨hd, hs⟩ x hx
 
-/-! ## 3-D, every mesh size: facet adjacency and boundary (shrinks the 3-D gap of `C10.FullStatement`) -/
+/-! ## 3-D, every mesh size: `facesOk`, facet adjacency and boundary (shrinks the 3-D gap of `C10.FullStatement`) -/
+
+/-- The 3-D statement with the hypothesis the refiner really needs: for hexahedra, `Mesh.consistent` (vertex SETS of
+    faces) does not exclude a cell that sees a quadrilateral face in a "twisted" vertex order, for which no
+    orientation code exists; `consistent3 = consistent ∧ orientOk` adds that every cell sees each face as a symmetric
+    arrangement of the face's own tuple.  NOT proved in full (see the `_partial` theorems below). -/
+def C10.FullStatement3D : Prop :=
+  ∀ M : Mesh, M.dim = 3 → M.consistent3 = true → (refine M).consistent3 = true
+
+/-- **PARTIAL 3-D global lift, clause `facesOk` (every mesh size, hexahedra and tetrahedra, EVERY joint assignment of
+    orientation codes to the faces and edges of the cells)**: every edge / face listed by a refined cell or refined
+    face really is the corresponding local face.  Proof: per-sub-entity independence read off the generated terms
+    (each term of a table `(3,c,f)` refers to exactly one edge or face of the cell — `cterm3Ok`), a kernel-evaluated
+    symbolic check for each of the 8 (6) codes of that one face (`faces3Check`: 6·8 resp. 4·6 cases per term instead
+    of 8⁶), and the 3-D analogues of `sim_child`: `transl_sound` (a vertex / edge midpoint / centre of a face
+    expressed in the cell's own vertices, edges and faces) and `sim_child3` (edge children).
+    Still missing for `C10.FullStatement3D`: the global lift of `distinctOk` and `orientOk` (see
+    `C10.global_lift_3d_partial`). -/
+theorem C10.faces_preserved_3d_partial (M : Mesh) (hd : M.dim = 3) (h : M.consistent3 = true) :
+    (refine M).facesOk = true :=
+  facesOk_refine3 M (conf3_of_consistent3 M hd h)
+
+/-- **PARTIAL 3-D global lift (every mesh size, hexahedra and tetrahedra, every orientation of every sub-entity)**:
+    of the clauses of `consistent3`, refinement preserves sizes/index ranges (`shapeOk`), `facesOk`, facet adjacency
+    (`facetsOk`: interior facet two cells, boundary facet one) and `coveredOk` (no orphan edges / faces).
+    NOT yet lifted in 3-D: `distinctOk` (no two fine entities with the same vertex set) and `orientOk` (fine cells see
+    their faces in a symmetric arrangement); for these only the local lemmas over the Latin-square and pairwise
+    covering orientation families are available. -/
+theorem C10.global_lift_3d_partial (M : Mesh) (hd : M.dim = 3) (h : M.consistent3 = true) :
+    (refine M).shapeOk = true ∧ (refine M).facesOk = true ∧ (refine M).facetsOk = true ∧
+    (refine M).coveredOk = true := by
+  have hc := conf3_of_consistent3 M hd h
+  unfold Mesh.consistent3 Mesh.consistent at h
+  simp only [Bool.and_eq_true] at h
+  exact ⟨shapeOk_refine M (by rw [hd]; omega) hc.shape, facesOk_refine3 M hc,
+    facetsOk_refine3 M ⟨hd, hc.shape⟩ h.1.1.2, coveredOk_refine3 M hd hc.shape h.1.2⟩
+
+/-- per-sub-entity symbolic check of the generated 3-D tables (kernel evaluation): the statement the seeded change
+    "child quad of face 4 selected with the code of face 3" violates -/
+theorem C10.tables_3d_checked_per_orientation_code (kind : Kind) : faces3Check kind = true :=
+  faces3Check_true kind
+
 
 /-- PARTIAL 3-D global lift, clause `facetsOk`: for every hexahedral or tetrahedral mesh of any size whose index sets
     are well-shaped, "every interior facet has exactly two and every boundary facet one adjacent cell" is preserved
@@ -226,13 +276,26 @@ theorem C10.orientation_quadrilateral (x0 y0 x1 y1 x2 y2 x3 y3 : Rat)
 
 /-- the twelve children of a straight tetrahedron with arbitrary rational vertex coordinates have 1/8 (corner
     children) resp. 1/16 (children at the centroid) of the parent's signed volume: they tile the parent and keep its
-    orientation.  (Hexahedra: trilinear volume is checked by the oracle only.) -/
+    orientation. -/
 theorem C10.volume_orientation_tetrahedron (a0 a1 a2 b0 b1 b2 c0 c1 c2 d0 d1 d2 : Rat) :
     ((refine (tetMesh [[a0, a1, a2], [b0, b1, b2], [c0, c1, c2], [d0, d1, d2]])).idx 3 0).map
         (tetVol6 (refine (tetMesh [[a0, a1, a2], [b0, b1, b2], [c0, c1, c2], [d0, d1, d2]]))) =
       [1/8, 1/16, 1/8, 1/16, 1/8, 1/16, 1/8, 1/16, 1/16, 1/16, 1/16, 1/16].map
         (· * tetVol6 (tetMesh [[a0, a1, a2], [b0, b1, b2], [c0, c1, c2], [d0, d1, d2]]) [0, 1, 2, 3]) :=
   tet_children_volume a0 a1 a2 b0 b1 b2 c0 c1 c2 d0 d1 d2
+
+/-- the eight children of a TRILINEAR hexahedron with arbitrary rational vertex coordinates have volumes summing to
+    the parent's volume: polynomial identity in the 24 coordinates for the exact volume `∫ det J`
+    (`hexVol12`, Grandy's formula; the check compares it on every run with the exact tensor-Simpson integral of the
+    Jacobian determinant that the oracle uses).  Orientation of hexahedral children: oracle only. -/
+theorem C10.volume_hexahedron (a0 a1 a2 b0 b1 b2 c0 c1 c2 d0 d1 d2 e0 e1 e2 f0 f1 f2 g0 g1 g2 h0 h1 h2 : Rat) :
+    (((refine (hexMesh [[a0, a1, a2], [b0, b1, b2], [c0, c1, c2], [d0, d1, d2], [e0, e1, e2], [f0, f1, f2],
+        [g0, g1, g2], [h0, h1, h2]])).idx 3 0).map
+      (hexVol12 (refine (hexMesh [[a0, a1, a2], [b0, b1, b2], [c0, c1, c2], [d0, d1, d2], [e0, e1, e2], [f0, f1, f2],
+        [g0, g1, g2], [h0, h1, h2]])))).sum
+    = hexVol12 (hexMesh [[a0, a1, a2], [b0, b1, b2], [c0, c1, c2], [d0, d1, d2], [e0, e1, e2], [f0, f1, f2],
+        [g0, g1, g2], [h0, h1, h2]]) [0, 1, 2, 3, 4, 5, 6, 7] :=
+  hex_children_volume a0 a1 a2 b0 b1 b2 c0 c1 c2 d0 d1 d2 e0 e1 e2 f0 f1 f2 g0 g1 g2 h0 h1 h2
 
 /-! ## orientation codes (specification of the hand-transcribed `CongruencySampler::compare`, any vertex numbers) -/
 
